@@ -343,6 +343,24 @@ def callee_resolved(t):
 _GEN = re.compile(r"::<.*>$")
 
 
+def variable_signature(b, l):
+    """Name-free description of how a user variable is defined (all its definitions, sorted)."""
+    from . import flow
+    out = []
+    for bb, idx, kind, payload in b.defs(l):
+        try:
+            if kind == "assign":
+                d = flow.describe_rvalue(b, payload, names=False)
+            elif kind == "call":
+                d = "call:" + (payload["callee"].get("def") or "")
+            else:
+                d = kind
+        except Exception:
+            d = "?"
+        out.append(re.sub(r"var\([^()]*\)", "var(?)", d)[:400])
+    return "|".join(sorted(out))
+
+
 class Facts:
     def __init__(self, d, which="lib"):
         self.dir = d
@@ -361,6 +379,53 @@ class Facts:
         self.statics = self.j["statics"]
         self.adts = self.j["adts"]
         self._callmap = {}
+        self.renamed = {}
+        if which == "lib" and os.environ.get("PFA_NO_VARNAMES") != "1":
+            self._canonical_variable_names()
+
+    # ---- user variable names are not semantics ----------------------------------------------------
+    def _canonical_variable_names(self):
+        """Several rules address a value by the name of the user variable that holds it (`lcode`, `chunk_len`, ...), because
+        that is the stable handle MIR debug info offers.  Renaming a variable must not change a verdict, so names are made
+        canonical first: reference/varnames.json records, per function, the named locals of the reference tree with their
+        type and a name-free signature of their definitions; a local whose name is not in that list is matched to the
+        unmatched reference variable with the same type and definition signature (then: same type, declaration order) and
+        is given the reference name.  Nothing else about the body changes."""
+        p = os.path.join(os.path.dirname(os.path.dirname(os.path.abspath(__file__))), "reference", "varnames.json")
+        if not os.path.exists(p):
+            return
+        ref = json.load(open(p))
+        for fn, rvars in ref.items():
+            b = self.bodies.get(fn)
+            if b is None:
+                continue
+            cur = [(i, l.get("name"), l.get("ty")) for i, l in enumerate(b.locals) if l.get("name")]
+            if sorted(n for _, n, _ in cur) == sorted(r[0] for r in rvars):
+                continue
+            # occurrence-aware identity matching first
+            r_un = list(rvars)
+            c_un = []
+            for i, n, ty in cur:
+                hit = next((r for r in r_un if r[0] == n), None)
+                if hit is not None:
+                    r_un.remove(hit)
+                else:
+                    c_un.append((i, n, ty))
+            if not c_un or not r_un:
+                continue
+            sigs = {i: variable_signature(b, i) for i, _, _ in c_un}
+            for stage in ("sig", "type"):
+                for i, n, ty in list(c_un):
+                    cands = [r for r in r_un if r[1] == ty and (stage == "type" or r[2] == sigs[i])]
+                    if stage == "sig" and len(cands) != 1:
+                        continue
+                    if not cands:
+                        continue
+                    r = cands[0]
+                    r_un.remove(r)
+                    c_un.remove((i, n, ty))
+                    b.locals[i]["name"] = r[0]
+                    self.renamed.setdefault(fn, []).append((n, r[0]))
 
     # ---- lookups --------------------------------------------------------------------------
     def body(self, name):
